@@ -48,6 +48,7 @@ func run(r *vkit.Report) {
 	r.Assume("after stream.Merge first reports an error no further Next is issued: stickiness of the error is not judged")
 	r.Assume("the caller's slice of inputs / destinations belongs to the caller: the functions may read it while they run but must leave the array (the passed window, its spare capacity, its surroundings) as it was")
 	r.Assume("'the goroutines finish after Close' for an input that ignores its context and never ends is decided as bounded progress: Close blocked for >= 15 s (normal: microseconds) while a goroutine started by stream.Merge is running in two dumps 2 s apart, >= 1.5 s of CPU burnt and >= 1000 further values pulled from the input in between; anything less is inconclusive")
+	r.Assume("the caller may reuse the slice it passed as stream.Merge's variadic arguments as soon as Merge has returned (chans.Merge / Replicate block until done, so the question does not arise there)")
 	r.Assume("consumers of chans.Replicate's destinations may advance in rounds (item k from every destination before item k+1 from any): Replicate is documented to send every value to every destination, and sending item k everywhere before taking item k+1 is the only order that serves such readers")
 	r.Assume("a channel may have other receivers besides chans.Merge (Go channels allow it and the documentation does not forbid it): Merge must then forward only what it really received; nil channels are not documented and not tried")
 	r.Assume("which of several inputs' OWN errors is 'first' is not judged; but an error an input returned only because the context Merge gave it (or a child of it) was done is not an own error: if an input had failed on its own and the consumer's context is live, one of the own errors must be reported")
@@ -75,6 +76,7 @@ func run(r *vkit.Report) {
 	nRepWide := r.Scale(240, 960)
 	nIface := r.Scale(2880, 11520)
 	nDisc := r.Scale(800, 3200)
+	nReuse := r.Scale(420, 1680)
 	nShared := r.Scale(4200, 16800)
 
 	r.Cases("regress", nReg, workers, regressCase)
@@ -91,6 +93,7 @@ func run(r *vkit.Report) {
 	r.Cases("chans-replicate-wide", nRepWide, workers, replicateWideCase)
 	r.Cases("chans-merge-wide", nMergeWide, workers, chansMergeWideCase)
 	r.Cases("smerge-deaf", nDeaf, workers, smergeDeafCase)
+	r.Cases("smerge-reuse", nReuse, workers, smergeReuseCase)
 	r.Cases("smerge-lib", nLib, workers, smergeLibCase)
 	r.Cases("chans-shared", nShared, workers, chansSharedCase)
 	r.Cases("smerge-induced", nInduced, workers, smergeInducedCase)
@@ -136,6 +139,7 @@ func run(r *vkit.Report) {
 			r.Floor("element type "+e+" with nil / zero / NaN values through "+f, r.Table("interface element type with nil values: "+f, e), int64(nIface/36))
 		}
 	}
+	r.Floor("stream.Merge runs in which the caller overwrote its slice of inputs after Merge returned", r.Table("stream.Merge", "caller overwrote its slice after Merge returned; decoys untouched"), int64(nReuse))
 	r.Floor("chans.Replicate read round-robin by one goroutine from unbuffered destinations", r.Table("chans.Replicate consumer discipline", "one goroutine, round-robin"), int64(nDisc/4))
 	r.Floor("chans.Replicate read by lock-step consumers (barrier per item)", r.Table("chans.Replicate consumer discipline", "lock-step consumers"), int64(nDisc/4))
 	r.Floor("chans.Replicate with a prefilled buffered source and round-based readers", r.Table("chans.Replicate consumer discipline", "source had >= 2 items buffered when Replicate started"), int64(nDisc/4))
@@ -287,7 +291,9 @@ func showVals(vs []uint64) []string {
 	out := make([]string, 0, len(vs))
 	for _, v := range vs {
 		in, seq := unval(v)
-		if in < 0 {
+		if int64(v) < 0 {
+			out = append(out, fmt.Sprintf("?%d", int64(v)))
+		} else if in < 0 {
 			out = append(out, fmt.Sprintf("?%#x", v))
 		} else {
 			out = append(out, fmt.Sprintf("%d:%d", in, seq))
